@@ -636,3 +636,65 @@ Proof.
   rewrite Forall_forall in E. specialize (E x Hin). unfold wf_bytes in W. rewrite Forall_forall in W.
   rewrite <- (tag_charset_is_word_char x (W x Hin)). destruct (tag_charset x); [reflexivity | discriminate].
 Qed.
+
+(* ---------- when Command::argument accepts the filter ---------- *)
+
+Definition okc (x : N) : Prop := argument_reject x = false.
+
+Lemma okc_intro x : x < 256 -> x <> LF -> x <> 0 -> okc x.
+Proof.
+  intros H1 H2 H3. unfold okc. destruct (argument_reject x) eqn:E; [|reflexivity].
+  destruct (argument_reject_spec x H1 E); contradiction.
+Qed.
+
+Lemma okc_tag_char x : is_tag_name_char x = true -> okc x.
+Proof.
+  intros H. apply okc_intro; unfold is_tag_name_char, is_alpha, is_upper, is_lower, in_range, LF in *; lia.
+Qed.
+
+Lemma text_okc val q f :
+  Forall okc q ->
+  Forall (fun tv => valid_tagb (fst tv) = true /\ Forall okc (val (snd tv))) (leaves f) ->
+  Forall okc (text val q f).
+Proof.
+  intros Hq. assert (K : forall l, forallb (fun x => negb (argument_reject x)) l = true -> Forall okc l).
+  { intros l H. apply Forall_forall. intros x Hin. rewrite forallb_forall in H. specialize (H x Hin).
+    unfold okc. destruct (argument_reject x); [discriminate | reflexivity]. }
+  induction f as [t o v|g IH|l IH] using ftype_ind'; intros H.
+  - cbn [leaves] in H. inversion H as [|? ? [Ht Hv] _]; subst. cbn [fst snd] in *. cbn [text].
+    destruct (valid_tag_word t Ht) as [_ Hw].
+    repeat (apply Forall_app; split); try assumption; try (apply K; reflexivity).
+    + apply Forall_forall. intros x Hin. apply okc_tag_char. rewrite forallb_forall in Hw. apply Hw. exact Hin.
+    + apply K. destruct o; reflexivity.
+  - cbn [leaves] in H. cbn [text]. repeat (apply Forall_app; split); try (apply K; reflexivity). apply IH. exact H.
+  - rewrite leaves_and in H. apply Forall_flat_map' in H. cbn [text].
+    repeat (apply Forall_app; split); try (apply K; reflexivity).
+    generalize true. induction IH as [|c r Pc _ IHr]; intros first; [constructor|].
+    inversion H as [|? ? Hc Hr]; subst. cbn [map and_items].
+    repeat (apply Forall_app; split); [destruct first; apply K; reflexivity | apply Pc; exact Hc | apply IHr; exact Hr].
+Qed.
+
+Lemma esc_okc s : Forall okc s -> Forall okc (esc s).
+Proof.
+  induction 1 as [|c s Hc _ IH]; [constructor|]. unfold esc. cbn [flat_map]. fold (esc s).
+  apply Forall_app. split; [|exact IH]. destruct ((c =? BS) || (c =? DQ)); repeat constructor; exact Hc.
+Qed.
+
+(* a filter whose values hold no LF and no NUL is accepted, and this is what is written *)
+Theorem sent_when_clean name f :
+  wfb f = true -> Forall value_ok (leaves f) ->
+  Forall (fun tv => Forall (fun x => x < 256 /\ x <> LF /\ x <> 0) (snd tv)) (leaves f) ->
+  argument_filter name f = Sent (name ++ [SP] ++ [DQ] ++ esc (inner_text f) ++ [DQ]).
+Proof.
+  intros HW HV HC. unfold argument_filter, render_filter. rewrite (wf_and_ok f HW).
+  assert (F : Forall okc ([DQ] ++ render_ftype f ++ [DQ])).
+  { apply Forall_app. split; [repeat constructor; unfold okc; reflexivity|].
+    apply Forall_app. split; [|repeat constructor; unfold okc; reflexivity].
+    rewrite render_is_text. apply text_okc; [repeat constructor; unfold okc; reflexivity|].
+    rewrite Forall_forall in *. intros tv Hin. destruct (HV tv Hin) as (A & B & _). split; [exact A|].
+    rewrite (escape_filter_value_ok _ B). apply esc_okc, esc_okc.
+    eapply Forall_impl; [|exact (HC tv Hin)]. intros x (X1 & X2 & X3). apply okc_intro; assumption. }
+  destruct (add_argument_raw_spec name ([DQ] ++ render_ftype f ++ [DQ])) as [_ S]. rewrite (S F).
+  rewrite (render_is_outer_escape f); [reflexivity|].
+  eapply Forall_impl; [|exact HV]. intros tv (A & B & _). split; assumption.
+Qed.
